@@ -180,6 +180,19 @@ func (m *machine) registerIntrinsics() {
 		fr.i.faultFn = nil
 		return nil
 	}
+	in[vs+"LiveThreads"] = func(fr *frame, fn *ssa.Function, args []value) value {
+		sub := concString(args[0])
+		n := 0
+		for _, t := range fr.i.threads {
+			if t.dead || t == fr.i.cur {
+				continue
+			}
+			if strings.Contains(t.name, sub) {
+				n++
+			}
+		}
+		return n
+	}
 	in[vs+"Dir"] = func(fr *frame, fn *ssa.Function, args []value) value { return args[0] }
 	in[vs+"Hash"] = func(fr *frame, fn *ssa.Function, args []value) value {
 		return fr.i.contentToken(args[0])
